@@ -190,3 +190,22 @@ func (f flags) int(k string, def int) int {
 	}
 	return def
 }
+
+// orderedJSON is a JSON object that marshals its pairs in the given order.
+type orderedJSON [][2]any
+
+func (o orderedJSON) MarshalJSON() ([]byte, error) {
+	var b bytes.Buffer
+	b.WriteByte('{')
+	for i, p := range o {
+		if i > 0 {
+			b.WriteByte(',')
+		}
+		k, _ := p[0].(string)
+		b.Write(asciiJSON(k))
+		b.WriteByte(':')
+		b.Write(asciiJSON(p[1]))
+	}
+	b.WriteByte('}')
+	return b.Bytes(), nil
+}
